@@ -10,7 +10,7 @@ RULE = ("(a) exhaustive small scope: all 256 subsets of an 8-key universe as dic
         "up to 3000 entries with hit / neighbour / random lookups; (c) a counting type on every entry of dictionaries of 0..40 entries, "
         "through CODictObjInit and through CONodeInit; (d) typed access: width x direct/referenced x plain/node-id-relative x node id "
         "{1,64,127} x all 8/16-bit values, boundary + random 32-bit values, wrong-width accessors; (e) buffer access with every length "
-        "0..4000 on domains/strings of 8 sizes in exact-size user buffers; distinct non-trivial = lookups with a hit + typed + buffer cases")
+        "0..4000 on domains/strings of 8 sizes in exact-size user buffers; (f) continued access (COObjRd/WrBufStart + ...Cont) in random chunks that run up to and beyond the end of exact-size domains/strings; distinct non-trivial = lookups with a hit + typed + buffer cases")
 ASSUMPTIONS = ["dictionaries are sorted, unique and end-marked (precondition in the statement)",
                "buffer API used on domains and strings only"]
 VARIANTS = [("asan", ("dictcheck.c",), "dictcheck", {})]
@@ -18,7 +18,7 @@ VARIANTS = [("asan", ("dictcheck.c",), "dictcheck", {})]
 
 def plan(tier, seed):
     q = tier == "quick"
-    items = [("det", 1, 1), ("det", 4, 4), ("det", 16, 16)]
+    items = [("det", 1, 1), ("det", 4, 4), ("det", 16, 16)] + [("chunk", i, 32) for i in range(4)]
     items += [("typed", i, 8) for i in range(4 if q else 16)]
     items += [("rand", i, 2) for i in range(8 if q else 48)]
     return items
@@ -50,7 +50,7 @@ def work(item, ctx):
         sig = S.parse_crash(p.stderr, p.returncode)
         res.violation("c06/crash/" + sig, "engine died: " + sig, log=[" ".join(args)], detail=p.stderr[-2500:])
     c = res.counters
-    res.evals = c["lookups"] + c["typed_cases"] + c["buffer_cases"] + c["init_dictionaries"]
+    res.evals = c["lookups"] + c["typed_cases"] + c["buffer_cases"] + c["init_dictionaries"] + c["chunked_cases"]
     # distinct by construction: the enumerated parts (small scope, init, 8/16-bit typed values, buffer lengths) never repeat a case;
     # random lookups / random 32-bit values are not counted as distinct
     if kind == "det":
